@@ -463,6 +463,13 @@ class Server(metaclass=ABCMeta):
         return None
 
     def _use_keep_alive_hint(self, keepalive_hint=None):
+        if keepalive_hint is not None:
+            try:
+                float(keepalive_hint)
+            except ValueError:
+                self._log.warning("Discarding malformed keepalive hint for "
+                                  "%s: %s", self.name, keepalive_hint)
+                keepalive_hint = None
         if keepalive_hint is None:
             # No information provided, we stick to a stricter default
             if self._configured_keep_alive is None:
